@@ -16,7 +16,7 @@ SENT = ["Ends.", "Really?", "Yes!", "(so.)", 'said."']
 HAZ = ["-", "+", "*", "#", "##", ">", "1.", "2)", "10.", "-x", "#tag", "1.5", "|", "a|b"]
 INLINE = ["*em*", "**strong**", "`code`", "`a b`", "[link](http://x.y)", "[l k](http://x.y/a_b \"T\")", "![img](i.png)",
           "<http://auto.link>", "http://bare.url/x", "<https://e.com/o'neil>", "https://e.com/what's-new...x", "<b>", "</b>", "<span class=\"x y\">", "~~gone~~", "[^fn]", "[ref]",
-          "\\*lit\\*", "\"quoted\"", "it's", "wait...", "a_b_c", "2*3*4", "&amp;", "x<y"]
+          "\\*lit\\*", "2023\\.", "7\\)", "\\# no", "\"quoted\"", "it's", "wait...", "a_b_c", "2*3*4", "&amp;", "x<y"]
 TAGS = ["{% t %}", "{% /t %}", "{{ v }}", "{# c #}", "<!-- h -->", "{% a x=\"1 2\" %}", "{% t %}{% /t %}", "<!-- a --><!-- /a -->"]
 HAZ_UNESCAPED = ["---", "===", "```", "~~~", "***", "___", ">q", "- - -", "----"]     # known finding C01-escape-hazards
 
@@ -73,7 +73,7 @@ def block(rnd, depth=0, with_tags=False, in_list=False):
         return paragraph(rnd, n=2, breaks=False, hazards=False) + "\n" + rnd.choice(("===", "---"))
     if k in ("bullet", "ordered", "task"):
         items = []
-        start = rnd.choice((1, 1, 3, 10))
+        start = rnd.choice((1, 1, 3, 10, 9, 99))
         delim = getattr(rnd, "ordered_delim", ".")        # one delimiter type per document (')' and '.' lists next to
         # each other merge once ')' is normalised to '.': known finding C01-ordered-delimiter-merge)
         loose = rnd.random() < 0.4
@@ -111,7 +111,7 @@ def block(rnd, depth=0, with_tags=False, in_list=False):
         return "    code line\n    more  code"
     if k == "table":
         al = rnd.choice(("---", ":--", "--:", ":-:"))
-        cell = lambda: rnd.choice(["a", "`c`", "x \\| y", "**b**", "\"q\"", "l...", ""])
+        cell = lambda: rnd.choice(["a", "`c`", "x \\| y", "**b**", "\"q\"", "l...", "", "`p \\| q`", "*`e \\| f`*"])
         return "| h1 | h2 |\n| %s | --- |\n| %s | %s |\n| %s | %s |" % (al, cell(), cell(), cell(), cell())
     if k == "rule":
         return rnd.choice(("***", "---", "* * *", "___"))
